@@ -49,7 +49,11 @@ def run(tier):
     V.model(res, "Result.tla scope=grid (CoherenceBounds, CauchySchwarz, CondSpectraAddUp, ResidualIsOptimal, GyxIsConjugate ...)")
     R.replay_grid(V, PID, [c for c in cases if c["iscsd"]], NAMES, "grid")
     R.run_traces(V, PID, tier, common.seed(),
-                 lambda rnd: [("swap",), ("alone",), ("gain", rnd.choice([-2.5, 0.3, 7.0]))])
+                 lambda rnd: [("swap",), ("alone",), ("gain", rnd.choice([-2.5, 0.3, 7.0]))],
+                 # constant offsets 1e12 times the fluctuations (order 0, bins outside the 200 dB main lobe): a channel analysed alone
+                 # and in a pair goes through different kernels, which must remove the segment mean equally well
+                 extra=[dict(N=60000, fs=10.0, data="hugeoffset", sched="ltf", win="kaiser", order=0, backend=b, Jdes=40, Kdes=20, Lmin=1, psll=200, bmin=10.0)
+                        for b in ("numba", "numpy")])
     items = [(k, o, b, s, f) for k in ("zero_y", "zero_x", "const", "identical", "negated", "both_zero") for o in (-1, 0, 1, 2)
              for b in ("numba", "numpy") for s in ("ltf", "vectorized_ltf") for f in ("values_first", "errors_first", "frame_first")]
     out = common.pmap(degenerate, items, chunksize=4)
